@@ -13,7 +13,7 @@ def run(tier, seed):
     chk = vlib.Check("C09", tier, seed)
     os.environ["VM_FORCE_RNG"] = "1"      # every decision of the model comes from Random()/RandomRange()/Expent()/Normal()/Gamma()/Zipf()
     try:
-        models, per = (14, 8) if tier == "quick" else (240, 16)
+        models, per = (14, 8) if tier == "quick" else (100, 16)
         cases = sim_common.make_cases("C09", tier, seed, models * per, variants=(0,), fp_levels=(1, 10, 2, 3, 10), sizes=(0, 0, 1), same_model_group=per,
                                       threads=[1, 2, 3, 4, 8, 2, 12, 5, 16, 4], flavours=("asan",) if tier == "quick" else ("asan", "asan-ndebug"))
         # repetition: the last case of each group repeats the configuration of the first
@@ -44,7 +44,7 @@ def run(tier, seed):
     try:
         chk.soft_fraction = 0.35
         base = cases[0]["mseed"]
-        mcases = mpi_common.make_cases("C09", tier, seed, 10 if tier == "quick" else 200, variants=(0,), fault_rates=(0, 40), model_base=base, same_model_group=2,
+        mcases = mpi_common.make_cases("C09", tier, seed, 10 if tier == "quick" else 100, variants=(0,), fault_rates=(0, 40), model_base=base, same_model_group=2,
                                        layouts=[(2, 2), (3, 1), (2, 1), (3, 2)])
         for c in mcases:
             c["size"] = (0, 0, 1)[(c["mseed"] - base) % 3]   # same size class as the single-node runs of that model
